@@ -147,9 +147,17 @@ def generate(tier, seed, casedir, variant):
             cid += 1
     nm = 10 if tier == "quick" else 60
     viol += manufactured(rng, nm)
+    # the separable-network branches of the built-in equations against the pointwise branch on the same function
+    import c11
+    nsep = 3 if tier == "quick" else 9
+    try:
+        viol += c11.impl_vs_impl(rng, nsep, residuals_only=True)
+    except Exception as ex:
+        viol.append({"detail": f"separable / pointwise residual comparison raised {type(ex).__name__}: {str(ex)[:300]}", "case": {"what": "impl_vs_impl"}})
+    dist["separable_vs_pointwise_rounds"] = nsep
     write_cases(casedir, "C02", "R_C02", variant, cases, chunk=120)
     return dict(meta=meta, oracle_violations=viol, evaluations=len(cases) + nm, distinct_nontrivial=len(nontrivial), samples=samples, distribution=dist,
-                rule="per equation: random integer-coefficient polynomial candidate solutions (positive ones for Lotka-Volterra), dyadic points and parameters, Tmax in {1, 2, 1/2, 10}, scalar and vector drift parameters, shared and per-network parameter layouts, 1..4 Lotka-Volterra populations under arbitrary key names listed in any order; non-trivial = non-zero residual; plus exact heat-equation solutions on which the Fisher-KPP residual must vanish (oracle only)",
+                rule="per equation: random integer-coefficient polynomial candidate solutions (positive ones for Lotka-Volterra), dyadic points and parameters, Tmax in {1, 2, 1/2, 10}, scalar and vector drift parameters, shared and per-network parameter layouts, 1..4 Lotka-Volterra populations under arbitrary key names listed in any order; non-trivial = non-zero residual; plus exact heat-equation solutions on which the Fisher-KPP residual must vanish (oracle only); plus the separable-network branch of every built-in equation against its pointwise branch on the same function, 1 / 2 / 3 points per axis (oracle only)",
                 oracle_checks=nm)
 
 
